@@ -121,3 +121,63 @@ func VHHistory() {
 	m := New[int, int]()
 	maps.VMapHistory(m, maps.VKind{Name: "LinkedHashMap", Ordered: true, Inv: func() { VInv(m) }})
 }
+
+// ---- string keys and string values (C11: "string and integer key types, values that contain text equal to keys") ----
+
+// vStrView presents a Map[string,string] as a container of atoms to the shared JSON harnesses.
+type vStrView struct{ m *Map[string, string] }
+
+func (w vStrView) Empty() bool    { return w.m.Empty() }
+func (w vStrView) Size() int      { return w.m.Size() }
+func (w vStrView) Clear()         { w.m.Clear() }
+func (w vStrView) String() string { return w.m.String() }
+func (w vStrView) Values() []int {
+	xs := w.m.Values()
+	out := make([]int, len(xs))
+	for i, x := range xs {
+		out[i] = v.IntOf(x)
+	}
+	return out
+}
+
+// VGStrMap is an arbitrary LinkedHashMap[string,string] of n <= N pairs with pairwise distinct (symbolic) keys;
+// values are unconstrained, so a value equal to a key is a solver choice.
+func VGStrMap() *Map[string, string] {
+	n := v.Split(v.IntIn("n", 0, v.CfgOr("N", 3)), 0, 16)
+	m := &Map[string, string]{table: make(map[string]string)}
+	keys := make([]string, n)
+	for i := 0; i < n; i++ {
+		k := v.Str("k")
+		for j := 0; j < i; j++ {
+			v.Assume(k != keys[j])
+		}
+		keys[i] = k
+		m.table[k] = v.Str("x")
+	}
+	m.ordering = doublylinkedlist.VGStrListOf(keys)
+	return m
+}
+
+func vJSONS(c *Map[string, string]) containers.VJSON {
+	return containers.VJSON{C: vStrView{c}, ToJSON: c.ToJSON, FromJSON: c.FromJSON, Object: true, Strs: true,
+		Marshal:   func() ([]byte, error) { return json.Marshal(c) },
+		Unmarshal: func(data []byte) error { return json.Unmarshal(data, c) },
+		Keys: func() []int {
+			ks := c.Keys()
+			out := make([]int, len(ks))
+			for i, k := range ks {
+				out[i] = v.IntOf(k)
+			}
+			return out
+		},
+		Get:   func(k int) (int, bool) { x, ok := c.Get(v.StrOf(k)); return v.IntOf(x), ok },
+		Inv:   func() { v.Assert(c.table != nil && c.ordering != nil, "inv-nil"); v.Assert(c.ordering.Size() == len(c.table), "inv-table-list-size") },
+		Step:  func() { k, x := v.Str("sk"), v.Str("sx"); c.Put(k, x); y, ok := c.Get(k); v.Assert(v.And(ok, y == x), "C12:put-after-load") },
+		Fresh: func() containers.VJSON { return vJSONS(New[string, string]()) },
+		Ref:   func(ks, xs []int) ([]int, []int) { return vl.LastPerKey(ks, xs) },
+	}
+}
+
+// VHJSONRoundStr / VHJSONLoadStr: the serialization harnesses on a string-keyed, string-valued map.
+func VHJSONRoundStr() { containers.VJSONRound(vJSONS(VGStrMap())) }
+func VHJSONLoadStr()  { containers.VJSONLoad(vJSONS(VGStrMap())) }
